@@ -5,7 +5,8 @@ Only property theorems and non-vacuity examples live here; helper lemmas are in 
 All statements are about the definitions of `Model/OCO.lean` that `Drv/C16.lean` executes, for every
 dimension `n`, every sketch size `k+1`, every history `gs` (induction over the list) and every
 `lr`, `δ`. The kernels `rsqrt`, `sqrt`, `svd` are parameters; where a statement needs their
-specification it is an explicit hypothesis (`sqrt 0 = 0`, `sqrt x * sqrt x = x` for `0 ≤ x`, `SvdSpec`).
+specification it is an explicit hypothesis (`sqrt 0 = 0`, `sqrt x * sqrt x = x` and `0 ≤ sqrt x` for `0 ≤ x`,
+`0 < rsqrt x ∧ rsqrt x * rsqrt x * x = 1` for `0 < x`, `SvdSpec`).
 
 Scalars: closed forms, last row and `alpha` recurrence hold over any field; the bracket holds over any
 linearly ordered field with trivial star that is a `StarOrderedRing` (ℝ, ℚ, …), Loewner order via
@@ -181,6 +182,65 @@ theorem sada_bracket (hsq : ∀ x, 0 ≤ x → sqrt x * sqrt x = x) (δ : R) (gs
 
 end Bracket
 
+section Lossless
+variable {R : Type} [Field R] [LinearOrder R] [IsStrictOrderedRing R] [StarRing R] [TrivialStar R]
+  [StarOrderedRing R]
+variable {k n : ℕ}
+variable (svd : SvdFn R (k + 1) n) (sqrt rsqrt : R → R) (lr : R)
+
+/-- Matrix form of the code's preconditioned direction (the `else` branch of `_fd_update_fn`: RFD-SON, FD-SON with
+`inv = 1/x`, S-AdaGrad with `inv = rsqrt`): `update = (Pᵀ diag(safe_inv(α + s²)) P + safe_inv(α) (I − PᵀP)) g`. -/
+theorem direction_matrix_form {m : ℕ} (inv : R → R) (alpha : R) (P : Mat R m n) (s2 : Vec R m) (g : Vec R n) :
+    precondGeneric inv alpha P s2 g = appliedMatrix inv alpha P s2 *ᵥ g :=
+  precondGeneric_eq inv alpha P s2 g
+
+/-- **Lossless S-AdaGrad is full-matrix AdaGrad** (ext). Let the whole history `gs ++ [g]` lie in the row space of a
+matrix `W` with fewer rows than the sketch size (history rank < sketch size), `δ > 0`, and let the kernels meet their
+specifications (`sqrt x ≥ 0`, `sqrt x ² = x` for `x ≥ 0`; `rsqrt x > 0`, `rsqrt x ² · x = 1` for `x > 0`; `SvdSpec` on
+every matrix the SVD is called with). Then no mass ever escapes (`ρ_t = 0` for every step), `alpha` stays `δ`, the sketch
+is exact (`BᵀB = Σ g_t g_tᵀ`), and the last step is `w ← w − lr · X g` with `X` positive semidefinite and
+`X · X · (δ I + Σ_{t ≤ T} g_t g_tᵀ) = I`: `X` is the full-matrix AdaGrad preconditioner `(δI + Σ ggᵀ)^(-1/2)`.
+Every prefix of such a history satisfies the same hypotheses, so this holds for every iterate. -/
+theorem sada_lossless (hsq : ∀ x, 0 ≤ x → sqrt x * sqrt x = x) (hsq0 : ∀ x, 0 ≤ x → 0 ≤ sqrt x)
+    (hrs : ∀ x, 0 < x → 0 < rsqrt x ∧ rsqrt x * rsqrt x * x = 1)
+    (δ : R) (hδ : 0 < δ) (gs : List (Vec R n)) (g : Vec R n)
+    (hs : SvdAlong svd sqrt rsqrt .sAda lr (fdInit k n δ) gs)
+    (hlast : SvdSpec (fdB sqrt rsqrt .sAda lr (fdRun svd sqrt rsqrt .sAda lr δ gs) g)
+      (svd (fdB sqrt rsqrt .sAda lr (fdRun svd sqrt rsqrt .sAda lr δ gs) g)))
+    {r : ℕ} (hr : r < k + 1) (W : Matrix (Fin r) (Fin n) R)
+    (hW : ∀ x ∈ g :: gs, ∃ c : Fin r → R, x = c ᵥ* W) :
+    (∀ ρ ∈ fdRhosFrom svd sqrt rsqrt .sAda lr (fdInit k n δ) gs, ρ = 0) ∧
+    fdRho svd sqrt rsqrt .sAda lr (fdRun svd sqrt rsqrt .sAda lr δ gs) g = 0 ∧
+    (fdUpdate svd sqrt rsqrt .sAda lr (fdRun svd sqrt rsqrt .sAda lr δ gs) g).alpha = δ ∧
+    gram (sketchRows (fdUpdate svd sqrt rsqrt .sAda lr (fdRun svd sqrt rsqrt .sAda lr δ gs) g))
+      = inputsCov gs + vecMulVec g g ∧
+    ∃ X : Matrix (Fin n) (Fin n) R,
+      (∀ j, (fdUpdate svd sqrt rsqrt .sAda lr (fdRun svd sqrt rsqrt .sAda lr δ gs) g).w j
+        = (fdRun svd sqrt rsqrt .sAda lr δ gs).w j - lr * (X *ᵥ g) j) ∧
+      X.PosSemidef ∧
+      X * X * (δ • (1 : Matrix (Fin n) (Fin n) R) + (inputsCov gs + vecMulVec g g)) = 1 := by
+  have hinit0 : ∀ j, sketchRows (fdInit k n δ) (Fin.last k) j = 0 := by simp [sketchRows, fdInit]
+  have hinitS : InSpan W (fdInit k n δ) := ⟨0, by ext i j; simp [sketchRows, fdInit]⟩
+  have hg0 : gram (sketchRows (fdInit k n δ)) = 0 := by
+    ext a b; simp [gram_apply, sketchRows, fdInit]
+  obtain ⟨hρs, hspan, hgram⟩ := fd_lossless_from svd sqrt rsqrt .sAda lr hsq hsq0 hr W gs (fdInit k n δ)
+    hinit0 hinitS hs (fun x hx => hW x (List.mem_cons_of_mem _ hx))
+  rw [fdInputsFrom_sAda, hg0, zero_add] at hgram
+  have hst0 : ∀ j, sketchRows (fdRunFrom svd sqrt rsqrt .sAda lr (fdInit k n δ) gs) (Fin.last k) j = 0 :=
+    fdRunFrom_last_row svd sqrt rsqrt .sAda lr (sqrt_zero_of_spec sqrt hsq) gs (fdInit k n δ) hinit0
+  have hα : (fdRunFrom svd sqrt rsqrt .sAda lr (fdInit k n δ) gs).alpha = δ := by
+    have := fdRunFrom_alpha svd sqrt rsqrt .sAda lr gs (fdInit k n δ)
+    rw [list_sum_eq_zero_of_all_zero _ hρs, mul_zero, add_zero] at this
+    exact this
+  obtain ⟨h1, h2, h3, X, h4, h5, h6⟩ := sada_lossless_step svd sqrt rsqrt lr hsq hsq0 hrs hr W
+    (fdRunFrom svd sqrt rsqrt .sAda lr (fdInit k n δ) gs) g hspan hst0 (by rw [hα]; exact hδ)
+    (hW g (List.mem_cons_self ..)) hlast
+  rw [hα] at h2 h6
+  rw [hgram] at h3 h6
+  exact ⟨hρs, h1, h2, h3, X, h4, h5, h6⟩
+
+end Lossless
+
 /-! ### non-vacuity -/
 
 /-- the kernel hypotheses are satisfiable: `Real.sqrt` -/
@@ -217,5 +277,62 @@ example : (ogdRun (fun x : ℚ => 1 / x) (1 / 2) 1 [![1, -2], ![4, 0]]).w 0 = -(
   rw [(ogd_closed_form (fun x : ℚ => 1 / x) (1 / 2) 1 [![1, -2], ![4, 0]]).2 0]
   simp [Finset.sum_range_succ, hist]
   norm_num
+
+/-- the `rsqrt` specification of `sada_lossless` is met by `1 / Real.sqrt` -/
+example : ∀ x : ℝ, 0 < x → 0 < 1 / Real.sqrt x ∧ 1 / Real.sqrt x * (1 / Real.sqrt x) * x = 1 := by
+  intro x hx
+  have hs : 0 < Real.sqrt x := Real.sqrt_pos.mpr hx
+  refine ⟨by positivity, ?_⟩
+  have h2 : Real.sqrt x * Real.sqrt x = x := Real.mul_self_sqrt hx.le
+  field_simp
+  nlinarith [h2]
+
+/-- the rank hypothesis of `sada_lossless` on the history `[(3,4)]` (sketch size 2): it lies in the row space of the
+one-row matrix `W = [[3,4]]`, `r = 1 < 2` -/
+example : ∀ x ∈ [(![3, 4] : Vec ℝ 2)], ∃ c : Fin 1 → ℝ, x = c ᵥ* (!![3, 4] : Matrix (Fin 1) (Fin 2) ℝ) := by
+  intro x hx
+  simp only [List.mem_singleton] at hx
+  subst hx
+  refine ⟨![1], ?_⟩
+  funext j
+  fin_cases j <;> simp [vecMul, dotProduct]
+
+/-- `sada_lossless` instantiated: first step of S-AdaGrad (sketch size 2, dimension 2, `δ = 1/2`, gradient `(3,4)`) with the
+exact SVD `exSvd`: the applied matrix is a PSD inverse square root of `½ I + g gᵀ`. -/
+example : ∃ X : Matrix (Fin 2) (Fin 2) ℝ, X.PosSemidef ∧
+    X * X * ((1 / 2 : ℝ) • (1 : Matrix (Fin 2) (Fin 2) ℝ) + (inputsCov [] + vecMulVec ![3, 4] ![3, 4])) = 1 := by
+  have hspec : SvdSpec (fdB Real.sqrt (fun x => 1 / Real.sqrt x) .sAda (1 / 4 : ℝ)
+      (fdRun exSvd Real.sqrt (fun x => 1 / Real.sqrt x) .sAda (1 / 4 : ℝ) (1 / 2) []) ![3, 4])
+      (exSvd (fdB Real.sqrt (fun x => 1 / Real.sqrt x) .sAda (1 / 4 : ℝ)
+        (fdRun exSvd Real.sqrt (fun x => 1 / Real.sqrt x) .sAda (1 / 4 : ℝ) (1 / 2) []) ![3, 4])) := by
+    constructor
+    · intro i j
+      rw [sumFin_eq, Fin.sum_univ_two]
+      fin_cases i <;> fin_cases j <;>
+        simp [exSvd, fdRun, fdRunFrom, fdB, setLastRow, sketchRows, fdInit, gradInput, sketchFactor, Fin.last] <;> norm_num
+    · intro a b
+      rw [sumFin_eq, Fin.sum_univ_two]
+      fin_cases a <;> fin_cases b <;> simp [exSvd] <;> norm_num
+    · intro a b
+      rw [sumFin_eq, Fin.sum_univ_two]
+      fin_cases a <;> fin_cases b <;> simp [exSvd]
+    · intro i; fin_cases i <;> simp [exSvd]
+    · intro i j hij
+      fin_cases i <;> fin_cases j <;> simp_all [exSvd]
+  obtain ⟨-, -, -, -, X, -, h5, h6⟩ := sada_lossless exSvd Real.sqrt (fun x => 1 / Real.sqrt x) (1 / 4 : ℝ)
+    (fun _ hx => Real.mul_self_sqrt hx) (fun x _ => Real.sqrt_nonneg x)
+    (fun x hx => by
+      have hs : 0 < Real.sqrt x := Real.sqrt_pos.mpr hx
+      refine ⟨by positivity, ?_⟩
+      have h2 : Real.sqrt x * Real.sqrt x = x := Real.mul_self_sqrt hx.le
+      field_simp
+      nlinarith [h2])
+    (1 / 2 : ℝ) (by norm_num) [] ![3, 4] trivial hspec (r := 1) (by norm_num)
+    (!![3, 4] : Matrix (Fin 1) (Fin 2) ℝ)
+    (fun x hx => by
+      simp only [List.mem_singleton] at hx
+      subst hx
+      exact ⟨![1], by funext j; fin_cases j <;> simp [vecMul, dotProduct]⟩)
+  exact ⟨X, h5, h6⟩
 
 end PrecondVerif.C16
